@@ -304,7 +304,7 @@ func splitOnEdges(file, full string, timeoutS, seed int) (SolveResult, bool) {
 	var fixed []string
 	used := map[string]bool{}
 	qn := 0
-	for round := 0; round < 2; round++ {
+	for round := 0; round < 4; round++ {
 		type res struct {
 			sym      string
 			pos, neg bool
